@@ -402,8 +402,21 @@ class Lookups(Monitor):
       row = L[r]
       ok = True
       for (lc, qc, mode) in sp['keys']:
-        key = q.get(qc)
+        key = q.get(qc) if qc else None
         cell = row.get(lc)
+        if mode == 'const_none':
+          # key None on a Bool column is converted to the column's type: False
+          if cell != {'b': False}:
+            ok = False
+          continue
+        if mode == 'list_of':
+          # the whole list as key: matches rows whose list cell has the same elements in order
+          want_l = as_list(key) or []
+          if (as_list(cell) or []) != want_l or (not want_l and cell is not None and as_list(cell) is None):
+            ok = False
+          if not want_l:
+            ok = (cell is None)
+          continue
         if mode == 'eq':
           if cell != key or (isinstance(cell, bool) != isinstance(key, bool)):
             ok = False
@@ -573,9 +586,18 @@ class DirectFlags(Monitor):
         for ra in requested:
           if ra[1] == tid and ra[0] in ('UpdateRecord', 'BulkUpdateRecord', 'AddRecord', 'BulkAddRecord'):
             req_cols |= set(ra[3])
-        if colids & req_cols and not any((tid, c) in trig for c in colids):
-          # data columns the user asked to write, in an update marked indirect
-          has_trigger = False
+        rows_of = lambda x: set(x[2]) if isinstance(x[2], list) else {x[2]}
+        cells = set((r, c) for r in rows_of(a) for c in colids & req_cols)
+        # (the conversion of an empty column writes the type's default to every row, non-direct;
+        # the user's value then arrives in a direct update of the same cell)
+        covered = set((r, c) for b, f in zip(stored, direct)
+                      if f and b[1] == tid and b[0] in ('UpdateRecord', 'BulkUpdateRecord')
+                      for r in rows_of(b) for c in b[3])
+        req_cells = set((r, c) for ra in requested
+                        if ra[1] == tid and ra[0] in ('UpdateRecord', 'BulkUpdateRecord')
+                        for r in rows_of(ra) for c in ra[3])
+        if (cells & req_cells) - covered and not any((tid, c) in trig for c in colids):
+          # data cells the user asked to write, in an update marked indirect
           yield (vkey('C31', 'requested-update-marked-indirect', ctx),
                  "after %r: stored %s carries requested columns but is marked non-direct" % (
                      ctx.label, json.dumps(a)[:200]))
@@ -674,10 +696,13 @@ class Triggers(Monitor):
         elif when == 1:
           verdict, why = 'not', 'recalcWhen=NEVER'
         elif when == 2:
-          changed_by_user = any(prer[r].get(c) != postr[r].get(c) for c in w)
-          if changed_by_user:
+          # the user's update changes the row when a written value differs from the cell's prior
+          # value, even if a self-dependent trigger then puts the old value back
+          changed_visibly = any(prer[r].get(c) != postr[r].get(c) for c in w)
+          wrote_other = any(prer[r].get(c) != w[c] for c in w)
+          if changed_visibly:
             verdict, why = 'must', 'MANUAL_UPDATES and a user update changed the row'
-          else:
+          elif not wrote_other:
             verdict, why = 'not', 'MANUAL_UPDATES and no user update changed the row'
         else:
           # DEFAULT
